@@ -177,12 +177,14 @@ fn rt_begin_postamble() {
     }, 29, &[(248, 29)]);
 }
 
-/// EndPostamble swallows every trailing 223 byte, so it round-trips at the end of the file (no suffix).
+/// EndPostamble swallows every trailing 223 byte: it round-trips at the end of the file and before any byte other than 223.
 #[kani::proof]
 #[kani::unwind(70)]
 fn rt_end_postamble_bounded() {
     let dvi_format: u8 = kani::any();
     let postamble: i32 = kani::any();
+    let suffix: u8 = kani::any();
+    kani::assume(suffix != 223);
     let mut n = 0usize;
     while n <= 4 {
         let op = Op::EndPostamble { dvi_format, postamble, num_223_bytes: n };
@@ -196,6 +198,12 @@ fn rt_end_postamble_bounded() {
         match deserialize::deserialize(&b[..6 + n]) {
             Ok(Some((op2, rest))) => { assert!(op2 == op); assert!(rest.is_empty()); }
             _ => panic!("decode(encode(op)) must succeed"),
+        }
+        // followed by anything that does not start with 223: the padding ends there and what follows is handed back whole
+        b[6 + n] = suffix;
+        match deserialize::deserialize(&b[..7 + n]) {
+            Ok(Some((op2, rest))) => { assert!(op2 == op); assert!(rest.len() == 1 && rest[0] == suffix); }
+            _ => panic!("decode(encode(op) ++ suffix) must succeed"),
         }
         n += 1;
     }
